@@ -34,7 +34,8 @@ using namespace std::chrono;
 namespace {
 std::string g_oracle;
 
-struct SpanOut { std::string name, trace_id, span_id, parent_id, attr_k; bool has_k = false; int events = 0; int status = 0; };
+struct SpanOut { std::string name, trace_id, span_id, parent_id, attr_k, ev; bool has_k = false; int events = 0; int status = 0; };
+const int64_t kC04EventTime = 1700000000000000000ll;  // the explicit event time stamp of run_c04
 struct LogOut { std::string body, trace_id, span_id; };
 struct Ev { int thread, op, ret; };  // op index, ret: 0 call, 1 return
 struct Shared {
@@ -66,6 +67,13 @@ class SpanExporter final : public sdkt::SpanExporter {
       auto it = d->GetAttributes().find("k");
       if (it != d->GetAttributes().end()) { o.has_k = true; o.attr_k = str_of(it->second); }
       o.events = (int)d->GetEvents().size();
+      for (auto &e : d->GetEvents()) {  // name, "@T" if it carries run_c04's explicit time stamp, its attribute k
+        o.ev += e.GetName();
+        if (e.GetTimestamp().time_since_epoch().count() == kC04EventTime) o.ev += "@T";
+        auto ek = e.GetAttributes().find("k");
+        if (ek != e.GetAttributes().end()) o.ev += "{k=" + str_of(ek->second) + "}";
+        o.ev += ";";
+      }
       o.status = (int)d->GetStatus();
       g->spans.push_back(o);
       vfs::note("export-span", g->spans.size());
@@ -103,10 +111,15 @@ void run_c04(vf::Ctx &c) {
   // variant bit0: T2 ends before it adds the event (late mutator on its own thread);
   // variant bit1: T1's first operation is UpdateName("renamed") instead of SetAttribute(k,1)
   // variant bit2: T2's third operation is SetStatus(kError) instead of AddEvent
-  int variant4 = c.pick("variant", 8);
-  int variant = variant4 & 1;
-  bool rename = (variant4 & 2) != 0;
-  bool status_op = (variant4 & 4) != 0;
+  // variants 8..10: as variant 0, but T2's third operation is one of the other three SDK bodies of AddEvent (each has its own
+  //   lock + "still recording" guard): 8 AddEvent(name, time)  9 AddEvent(name, attributes)  10 AddEvent(name, time, attributes)
+  int variant4 = c.pick("variant", 11);
+  int ev_form = variant4 >= 8 ? variant4 - 7 : 0;
+  int bits = variant4 >= 8 ? 0 : variant4;
+  int variant = bits & 1;
+  bool rename = (bits & 2) != 0;
+  bool status_op = (bits & 4) != 0;
+  static const char *const kEvWant[4] = {"e;", "e1@T;", "e2{k=v};", "e3@T{k=v};"};
   {
     sdkt::TracerProvider provider(std::unique_ptr<sdkt::SpanProcessor>(new sdkt::SimpleSpanProcessor(std::unique_ptr<sdkt::SpanExporter>(new SpanExporter()))),
                                   opentelemetry::sdk::resource::Resource::GetEmpty());
@@ -122,7 +135,15 @@ void run_c04(vf::Ctx &c) {
       g->mark(2, 0); span->SetAttribute("k", "2"); g->mark(2, 1);
       if (variant == 1) { g->mark(4, 0); span->End(); g->mark(4, 1); }
       g->mark(3, 0);
-      if (status_op) span->SetStatus(trace::StatusCode::kError, "failed"); else span->AddEvent("e");
+      if (status_op) span->SetStatus(trace::StatusCode::kError, "failed");
+      else if (ev_form == 0) span->AddEvent("e");
+      else {
+        opentelemetry::common::SystemTimestamp ts{std::chrono::nanoseconds(kC04EventTime)};
+        std::vector<std::pair<nostd::string_view, opentelemetry::common::AttributeValue>> kv = {{"k", "v"}};
+        if (ev_form == 1) span->AddEvent("e1", ts);
+        else if (ev_form == 2) span->AddEvent("e2", kv);  // container helper -> Span::AddEvent(name, KeyValueIterable)
+        else span->AddEvent("e3", ts, kv);                // container helper -> Span::AddEvent(name, time, KeyValueIterable)
+      }
       g->mark(3, 1);
       if (variant == 0) { g->mark(4, 0); span->End(); g->mark(4, 1); }
     });
@@ -150,21 +171,21 @@ void run_c04(vf::Ctx &c) {
         if (x != y && ret_at[x] < call_at[y] && posn[x] > posn[y]) ok = false;
     if (!ok) continue;
     bool has_k = false, ended = false;
-    std::string k, name = "s";
+    std::string k, name = "s", ev;
     int events = 0, status = (int)trace::StatusCode::kUnset;
     for (int i = 0; i < 5 && !ended; ++i) {
       switch (perm[i]) {
         case 0: if (rename) name = "renamed"; else { has_k = true; k = "1"; } break;
         case 2: has_k = true; k = "2"; break;
-        case 3: if (status_op) status = (int)trace::StatusCode::kError; else events++; break;
+        case 3: if (status_op) status = (int)trace::StatusCode::kError; else { events++; ev += kEvWant[ev_form]; } break;
         default: ended = true;
       }
     }
-    if (has_k == o.has_k && (!has_k || k == o.attr_k) && events == o.events && name == o.name && status == o.status) explained = true;
+    if (has_k == o.has_k && (!has_k || k == o.attr_k) && events == o.events && ev == o.ev && name == o.name && status == o.status) explained = true;
   } while (!explained && std::next_permutation(perm, perm + 5));
   if (!explained)
-    vfs::fail("C04:conc:not-linearizable", vf::sfmt("exported span has name=%s k=%s events=%d status=%d, which no order of the calls consistent with their call/return order explains",
-                                                    o.name.c_str(), o.has_k ? o.attr_k.c_str() : "(absent)", o.events, o.status));
+    vfs::fail("C04:conc:not-linearizable", vf::sfmt("exported span has name=%s k=%s events=%d [%s] status=%d, which no order of the calls consistent with their call/return order explains",
+                                                    o.name.c_str(), o.has_k ? o.attr_k.c_str() : "(absent)", o.events, o.ev.c_str(), o.status));
   c.outcome(vf::sfmt("%d name=%s k=%s e=%d st=%d", variant4, o.name.c_str(), o.has_k ? o.attr_k.c_str() : "-", o.events, o.status));
   c.sample(vf::sfmt("variant=%d exported name=%s k=%s events=%d", variant4, o.name.c_str(), o.has_k ? o.attr_k.c_str() : "(absent)", o.events));
 }
